@@ -58,7 +58,7 @@ func run(c *lib.Ctx) error {
 	safety := []mc{{2, 3, 0}}
 	live := mc{2, 2, 0}
 	if c.Thorough() {
-		safety = []mc{{3, 3, 0}, {2, 3, 1}}
+		safety = []mc{{3, 2, 0}, {2, 3, 1}}
 		live = mc{2, 3, 1}
 	}
 	c.Set("bounds", map[string]any{"safety(NS,ND,crashes)": safety, "liveness(NS,ND,crashes)": live, "K": 2, "G": "NS=2 ND=3 K=2"})
@@ -252,6 +252,10 @@ func replayAll(c *lib.Ctx, behs []*behaviour) error {
 	c.Set("model_counterexample_signatures", sigs)
 	nOrd := c.Pick(45, len(ordinary))
 	rng.Shuffle(len(ordinary), func(i, j int) { ordinary[i], ordinary[j] = ordinary[j], ordinary[i] })
+	if os.Getenv("C27_CORRUPT") != "" && len(ordinary) > 0 { // development switch (vacuity guard by hand):
+		b := ordinary[0].b // falsify one prescribed post-state; the replay must report a mismatch
+		b.Steps[len(b.Steps)/2].Sock = 3 - b.Steps[len(b.Steps)/2].Sock
+	}
 	if nOrd > len(ordinary) {
 		nOrd = len(ordinary)
 	}
